@@ -148,6 +148,10 @@ def theorem_names(pid):
         m = re.match(r"^(?:@\[[^\]]*\]\s*)?theorem\s+(\S+)", line)
         if m:
             names.append(".".join(ns + [m.group(1)]))
+        # property theorems proved in an imported file are listed with `-- audit: Full.Name Other.Name`
+        m = re.match(r"^--\s*audit:\s*(.+)$", line)
+        if m:
+            names.extend(m.group(1).split())
     return names
 
 
@@ -281,7 +285,11 @@ def main():
             if f.get("status") == "known" and f.get("property") == pid and f.get("example") and f["id"] not in [h["id"] for h in ctx.known_hits]:
                 try:
                     r = core.run_cli(f["example"])
-                    if hasattr(mod, "known_probe"):
+                    if "probe_expect" in f:
+                        pe = f["probe_expect"]
+                        ok = all(r.get(k) == v for k, v in pe.items())
+                        why = f"expected {pe}, the implementation gives stdout={r['stdout']!r} status={r['status']}"
+                    elif hasattr(mod, "known_probe"):
                         ok, why = mod.known_probe(ctx, f, r)
                     elif hasattr(mod, "oracle_one"):
                         ok, why = mod.oracle_one(ctx, f["example"], r)
